@@ -79,7 +79,14 @@ func c06Check(cs vshCase, d *vshDesc) []vshFinding { //nolint:gocognit,cyclop
 
 					return "media"
 				}
-				add("dup-mid|"+cl(s.Media)+"-repeats-"+cl(secs[i].Media)+"|"+rel, fmt.Sprintf("m-sections %d (%s) and %d (%s) share mid %q", i, secs[i].Media, j, s.Media, s.Mid))
+				// did an unapplied CreateOffer (which hands out mids) precede this description?
+				unapplied := "no"
+				for k, op := range cs.Hist {
+					if k < d.Step && op.Op == "offer" {
+						unapplied = "yes"
+					}
+				}
+				add("dup-mid|"+cl(s.Media)+"-repeats-"+cl(secs[i].Media)+"|"+rel+"|after-unapplied-offer="+unapplied, fmt.Sprintf("m-sections %d (%s) and %d (%s) share mid %q", i, secs[i].Media, j, s.Media, s.Mid))
 
 				break
 			}
